@@ -37,6 +37,7 @@ type E5Row struct {
 	Index    int               `json:"index"`     // emits: which of several matching emissions (in source order) this row describes
 	AnySite  bool              `json:"any_site"`  // callguard: the condition under which at least one of the call sites is reached (robust to redundant sites)
 	InLoop   bool              `json:"in_loop"`   // callguard: the condition is taken from the head of the innermost enclosing loop (per iteration), not from the function entry
+	Assume   string            `json:"assume"`    // a fact about the inputs guaranteed by the caller (e.g. by the lexer that produced the token): valuations violating it are not compared
 }
 
 type E5Each struct {
@@ -595,6 +596,10 @@ func runE5Row(p *Program, sp *Spec, c *Collector, r *E5Row) bool {
 			if got == nil {
 				got = sf.val(arg)
 			}
+			if at := elementsAssignedInPlace(arg); at != nil {
+				// the term describes the slice as it was produced; its elements are overwritten before the call
+				got = sUnknown("elements of the argument are assigned in place (" + p.InstrPos(at) + ") before it is passed on")
+			}
 			if r.Field != "" {
 				for _, part := range strings.Split(r.Field, ".") {
 					got = sField(got, part, false, nil)
@@ -750,6 +755,14 @@ func e5Compare(c *Collector, r *E5Row, key, pos string, got, want *Sym, hint, wh
 	} else {
 		want = w2
 	}
+	if strings.TrimSpace(r.Assume) != "" {
+		a, err := parseSpecExpr(r.Assume, r.Params, map[string]*Sym{})
+		if err != nil {
+			c.Ob(r.Props, "E5.decision", key, Undecided, fmt.Sprintf("%s: the row's assumption does not parse: %v", what, err), pos, false)
+			return true
+		}
+		got = sIte(canonBinders(typeSwitchNorm(stripAsserts(a))), got, want)
+	}
 	res := compareSyms(got, want, hint)
 	if res.Equal {
 		c.Ob(r.Props, "E5.decision", key, Discharged, fmt.Sprintf("%s: code ≡ table on %d valuations of %d terms%s [%s]; code term: %s", what, res.Evaluations, len(res.Terms), map[bool]string{true: " (product too large: every pair of terms enumerated completely)", false: ""}[res.Truncated], clip(strings.Join(res.Terms, "; "), 300), clip(got.String(), 200)), pos, true)
@@ -861,4 +874,35 @@ func debugSym(p *Program, key string) {
 func resultVars(fn *ssa.Function) []int {
 	out := make([]int, fn.Signature.Results().Len())
 	return out
+}
+
+// elementsAssignedInPlace: v is a slice value (not a local array being filled for a variadic call) and some instruction
+// stores into one of its elements.
+func elementsAssignedInPlace(v ssa.Value) ssa.Instruction {
+	if _, isSlice := v.Type().Underlying().(*types.Slice); !isSlice {
+		return nil
+	}
+	if sl, ok := v.(*ssa.Slice); ok {
+		if _, isAlloc := sl.X.(*ssa.Alloc); isAlloc {
+			return nil // []T{…} literal / variadic argument array
+		}
+	}
+	refs := v.Referrers()
+	if refs == nil {
+		return nil
+	}
+	for _, r := range *refs {
+		ia, ok := r.(*ssa.IndexAddr)
+		if !ok || ia.X != v {
+			continue
+		}
+		if rr := ia.Referrers(); rr != nil {
+			for _, u := range *rr {
+				if st, ok := u.(*ssa.Store); ok && st.Addr == ssa.Value(ia) {
+					return st
+				}
+			}
+		}
+	}
+	return nil
 }
